@@ -398,4 +398,6 @@ def r_shared_r9(ctx):
 EXPLANATION = EXPLANATION + (" (R9) sequence arithmetic never produces the reserved number 0 (shared C08.R1): BitField.insert reads a current number of 0 as "
                              "'nothing received yet' and adopts the next number without a duplicate test, so a sender that wraps onto 0 re-opens the window for replays.")
 
+EXPLANATION = EXPLANATION + " (R4, as built) FragmentReceiver.receive is decided by partial evaluation (engine/minieval) on 33 (receiver state, index) pairs: slot index-1 takes the new fragment exactly when 1 <= index <= count and the slot was empty, nothing else changes; the statement-shape rule is the fallback outside the evaluator's fragment."
+
 RULES = [("C04.R1", r1), ("C04.R2", r2), ("C04.R3", r3), ("C04.R4", r4), ("C04.R5", r_enum), ("C04.R6", r_shared_r6), ("C04.R7", r_shared_r7), ("C04.R8", r8), ("C04.R9", r_shared_r9)]
